@@ -574,7 +574,7 @@ func runC05(cfg Config, r *Result) {
 		c05Check(c, m, "")
 	}
 	// scope trees (harness/c05scope.go): a read of a variable at every position relative to its declaration
-	scValid, scMut := c05ScopeMutants(cfg, cfg.N(250, 5000))
+	scValid, scMut := c05ScopeMutants(cfg, cfg.N(250, 2000))
 	for _, p := range scValid {
 		if _, err := safeParse(p); err != nil {
 			r.Dist("base:scope-tree-rejected")
